@@ -25,7 +25,7 @@ class CaselessDict(OrderedDict):
     Values retain their case.
     """
 
-    def __init__(self, *args, **kwargs):
+    def __init__(self, /, *args, **kwargs):
         """Set keys to upper for initial dict.
         """
         super().__init__(*args, **kwargs)
@@ -70,7 +70,7 @@ class CaselessDict(OrderedDict):
         key = to_unicode(key)
         return super().__contains__(key.upper())
 
-    def update(self, *args, **kwargs):
+    def update(self, /, *args, **kwargs):
         # Multiple keys where key1.upper() == key2.upper() will be lost.
         mappings = list(args) + [kwargs]
         for mapping in mappings:
